@@ -18,6 +18,7 @@ CAP = 12
 # place (replays/C07/distribution-cache-aliases-edited-value.json, fixes/C07-distribution-cache-aliases-caller-tensors.diff).
 # Off until that fix is merged, so that the committed check stays quiet; VERIF_C07_CACHE_ALIASING=1 turns it on.
 ENABLE_CACHE_ALIASING = True  # repaired in /repo by the cache-copies commit
+ENABLE_FAILED_CALL = True  # repaired in /repo by e396224
 
 
 def _prod(xs):
@@ -535,7 +536,8 @@ def _dist_cases(tier):
                      "validate_args": draw(st.sampled_from([None, True, False]))})
         # history of calls on the ONE distribution object after the basic checks (must not matter, cache on or off)
         case["history"] = draw(st.sampled_from(["none", "A_B_A", "resample_then_A", "second_distribution_on_the_walk",
-                                                "edit_value_in_place", "edit_result_in_place", "edit_sample_in_place"]))
+                                                "edit_value_in_place", "edit_result_in_place", "edit_sample_in_place",
+                                                "model_call_fails_once"]))
         case["seed2"] = draw(st.integers(0, 2 ** 31 - 1))
         return case
 
@@ -549,11 +551,12 @@ def _dist_cases(tier):
               "clear_cache(). Also models with zero-probability tokens / logits of +-1e6 / vocabularies of 15..33 expanded from a seed, "
               "and call histories on the one distribution object: log_prob(A), log_prob(B), log_prob(A); a new sample before "
               "log_prob(A); a second distribution on the same walk used in between; (behind ENABLE_CACHE_ALIASING) tensors handed "
-              "to / received from the distribution (incl. the tensor sample() returned) edited in place",
+              "to / received from the distribution (incl. the tensor sample() returned) edited in place; a model call inside log_prob that fails once, then the same question again",
           required_classes=["sample_shape_empty", "batch_none", "batched", "sample_shorter_than_limit", "cache_on", "cache_off",
                             "zero_probability_tokens", "extreme_logits", "vocabulary_about_16", "vocabulary_about_32",
                             "samples_16_or_more", "history_A_B_A", "history_resample_then_A",
-                            "history_second_distribution_on_the_walk", "history_edit_sample_in_place"])
+                            "history_second_distribution_on_the_walk", "history_edit_sample_in_place",
+                            "history_model_call_fails_once"])
 def _dist_check(case):
     import torch
     from pydrobert.torch.modules import RandomWalk
@@ -696,6 +699,23 @@ def _dist_check(case):
             cl.add("history_edit_sample_in_place")
             if case["cache"]:
                 cl.add("cached_sample_edited_in_place")
+    elif hist == "model_call_fails_once" and ENABLE_FAILED_CALL:
+        # the model call inside log_prob(A) fails once (an interrupt, a transient error): asking again must give A's
+        # log-probability, not whatever was computed for the sample drawn before
+        torch.manual_seed(case["seed2"])
+        B = dist.sample(torch.Size(sshape)).clone()
+        if B.shape == A.shape and not torch.equal(A, B):
+            lm.fail_next = True
+            try:
+                dist.log_prob(A)
+                raised = False
+            except declm.Transient:
+                raised = True
+            lm.fail_next = False
+            if raised:
+                same(dist.log_prob(A), A, "log_prob(A) asked again after the model call inside log_prob(A) failed once")
+                same(dist.log_prob(B), B, "log_prob(B) after that")
+                cl.add("history_model_call_fails_once")
     elif hist == "edit_result_in_place" and ENABLE_CACHE_ALIASING:
         r = dist.log_prob(A)
         same(r, A, "log_prob(A)")
